@@ -255,7 +255,7 @@ pub fn sizes_enum_spec(rs: u64, unit: u64) -> RunSpec {
     for p in SPATHS {
         ops.push(Op::Scan { a, path: p, w: None });
     }
-    let nsites = if world == "WA" { 12 } else { 2 };
+    let nsites = if world == "WA" { 13 } else { 2 };
     for site in 0..nsites {
         ops.push(Op::Query { site, mac: QMacro::Iter, key: None, plan: vec![], dp: None });
         ops.push(Op::Query { site, mac: QMacro::IterBorrow, key: None, plan: vec![], dp: None });
@@ -277,7 +277,7 @@ pub fn sizes_enum_spec(rs: u64, unit: u64) -> RunSpec {
 /// Accesses from inside borrow-mode query closures, enumerated: 8 sites x {ecs_iter_borrow!,
 /// ecs_find_borrow!} x 6 inner access kinds x inner mutability x {aimed at the visited column,
 /// elsewhere} = 384 cells, at a sampled world state.
-pub const C11Q_CELLS: u64 = 12 * 2 * 8 * 2 * 2;
+pub const C11Q_CELLS: u64 = 13 * 2 * 8 * 2 * 2;
 pub fn c11q_enum_spec(rs: u64, unit: u64) -> RunSpec {
     let mut c = unit % C11Q_CELLS;
     let mut take = |n: u64| {
@@ -285,7 +285,7 @@ pub fn c11q_enum_spec(rs: u64, unit: u64) -> RunSpec {
         c /= n;
         r
     };
-    let site = take(12) as u8;
+    let site = take(13) as u8;
     let find = take(2) == 1;
     let kind = C11_INNER[take(8) as usize];
     let m = take(2) == 1;
@@ -356,7 +356,7 @@ pub fn sizesf_enum_spec(rs: u64, unit: u64) -> RunSpec {
     RunSpec { world: "WA".into(), caps, ops, crash_after: Some(len) }
 }
 
-pub const C06_COMBOS: u64 = 12 * 2 * 13;
+pub const C06_COMBOS: u64 = 13 * 2 * 13;
 
 /// Break positions enumerated: for a sampled state (a seeded history prefix shared by the 182
 /// units of one family) each of the 7 query sites x {ecs_iter!, ecs_iter_borrow!} is run with
@@ -364,8 +364,8 @@ pub const C06_COMBOS: u64 = 12 * 2 * 13;
 pub fn c06_enum_spec(seed: u64, unit: u64) -> RunSpec {
     let family = unit / C06_COMBOS;
     let mut c = unit % C06_COMBOS;
-    let site = (c % 12) as u8;
-    c /= 12;
+    let site = (c % 13) as u8;
+    c /= 13;
     let mac = if c % 2 == 0 { QMacro::Iter } else { QMacro::IterBorrow };
     c /= 2;
     let brk = c; // 12 = never
